@@ -91,6 +91,8 @@ DEFAULT_PROFILE = {
     "dep_index": 0,            # percent: subscripts from dependence templates
     "extra_int_scalars": (),   # additional integer inout scalars (names)
     "full_loops": 0,           # percent: DO bounds = full extent of an array
+    "triangular": 0,           # weight: a loop bound is an outer loop variable
+    "index_alias_calls": 0,    # percent: call passes k and a(..k..) together
 }
 
 
@@ -953,9 +955,21 @@ class Gen:
         step = self.weighted([(10, 1), (2, 2), (1, 3), (3, -1), (1, -2)])
         ins = [v for v in self.scalars("int") if v.role == "in" and v.rng]
 
+        outers = [v for v in self.loop_stack if v.rng and
+                  -2 <= v.rng[0] and v.rng[1] <= 8]
+
         def bound(lo, hi):
+            tri = self.prof.get("triangular", 0) if outers else 0
             kind = self.weighted([(6, "lit"), (5 if ins else 0, "in"),
-                                  (1, "expr")])
+                                  (1, "expr"), (tri, "outer")])
+            if kind == "outer":
+                # triangular nest: bound depends on an enclosing loop variable
+                var_out = self.pick(outers)
+                off = self.pick([0, 0, 1, -1])
+                txt = var_out.name if off == 0 else \
+                    f"{var_out.name} {'+' if off > 0 else '-'} {abs(off)}"
+                self.features.add("triangular")
+                return txt, var_out.rng[0] + off, var_out.rng[1] + off
             if kind == "lit":
                 val = self.int(lo, hi)
                 return lit(val), val, val
